@@ -127,6 +127,7 @@ def part_a(facts, res):
             continue
         if any(t in st.tags for t in ("opaque-assert", "unknown-callee")):
             res.errors.append("imprecise trace: %r" % (st.tags,))
+            continue     # an imprecisely followed trace decides nothing
         effs = list(st.eff)
         nexts = [e for e in effs if e[0] == "next"]
         if not nexts:
